@@ -1305,7 +1305,11 @@ def _merge_python_version_single_markers(
     if merged_marker == normalized_marker:
         # prefer original marker to avoid unnecessary changes
         return version_marker
-    if merged_marker and isinstance(merged_marker, SingleMarker):
+    if (
+        merged_marker
+        and isinstance(merged_marker, SingleMarker)
+        and merged_marker.operator not in {"in", "not in"}
+    ):
         # We have to fix markers like 'python_full_version == "3.6"'
         # to receive 'python_full_version == "3.6.0"'.
         # It seems a bit hacky to convert to string and back to marker,
